@@ -481,3 +481,15 @@ Theorem per_role_limit_respected :
                  N.of_nat (length (filter (counted (s_epoch s) (n_id n) (r_id x) role) l)) + 1 <= mx).
 Proof. exact per_role_limit_respected. Qed.
 Print Assumptions per_role_limit_respected.
+
+(* After every history from the initial state, the entity of every registered
+   node (live, or expired and still held) is a registered entity: the guard of
+   DeregisterEntity is "no registered node names this entity" over the node
+   table (nodes-by-entity index), not the entity descriptor's node list. *)
+Theorem registered_node_entity_always_registered :
+  forall (addr : N -> N) (fixed : bool) (maxexp debond : N) (ops : list op) id n,
+    forallb tx_op ops = true ->
+    aget id (s_nodes (run addr fixed maxexp debond ops st0)) = Some n ->
+    exists ent, aget (n_ent n) (s_ents (run addr fixed maxexp debond ops st0)) = Some ent.
+Proof. exact owner_from_initial. Qed.
+Print Assumptions registered_node_entity_always_registered.
